@@ -3,6 +3,6 @@
 set -e
 cd "$(dirname "$0")"
 mkdir -p build/run build/replay evidence coq/theories/Gen
-PYTHONPATH=/repo PYTHONHASHSEED=0 /venv/bin/python translate/gen_all.py || echo "translator reported failures (checks will report them)"
+flock build/.coqlock env PYTHONPATH=/repo PYTHONHASHSEED=0 /venv/bin/python translate/gen_all.py || echo "translator reported failures (checks will report them)"
 coq/mk_coqproject.sh
-timeout 3000 make -C coq -j16 -k || echo "some Coq files did not build (checks will report them)"
+flock build/.coqlock timeout 3000 make -C coq -j16 -k || echo "some Coq files did not build (checks will report them)"
